@@ -1,5 +1,76 @@
-(* C28 — placeholder while the proofs are being written *)
-From Hio Require Import Base.Prelude Model.Dom.
-Theorem C28_tmp : forall c, checked c DNull = Exc ValueErr.
-Proof. reflexivity. Qed.
-Print Assumptions C28_tmp.
+(* C28 — registered data objects round-trip losslessly through JSON, CBOR and
+   MessagePack.  Statements only; proofs are in Proofs/DomProofs.v.  The model
+   (Model/Dom.v) is the tree after the D31 repair (postponed annotations are
+   resolved).
+
+   The full statement — every data object whose fields hold representable
+   values, "including nested data objects" — is false of the code: a nested
+   data object is rebuilt only when its field is annotated with exactly its
+   class (open finding D31b).  C28_roundtrip_refuted gives the witness;
+   C28_roundtrip proves the round trip for every schema, every codec that
+   decodes its own encodings on the common domain, and every well-typed
+   object: [fits S (TDom c) d] says that each dataclass-annotated field holds
+   None or an instance of exactly that class (recursively well-typed) and
+   every other field holds a value free of data objects — lists and dicts of
+   any depth, ints, float bits, strings. *)
+From Hio Require Import Base.Prelude Model.Dom Proofs.DomProofs.
+
+(* datify inverts dictify on the well-typed objects (no codec involved). *)
+Theorem C28_datify_dictify : forall S, schema_ok S ->
+  forall d t, fits S t d -> datify S t (dictify d) = d.
+Proof. exact datify_dictify. Qed.
+Print Assumptions C28_datify_dictify.
+
+(* from_x (as_x d) = d, same class, for JSON, CBOR, MessagePack or any other
+   codec with dec (enc v) = Some v on the values it represents. *)
+Theorem C28_roundtrip : forall (wire : Type) (enc : value -> wire) (dec : wire -> option value)
+    (common : value -> Prop),
+  (forall v, common v -> dec (enc v) = Some v) ->
+  forall S c fs,
+    schema_ok S -> fits S (TDom c) (DDom c fs) -> common (dictify (DDom c fs)) ->
+    from_x wire dec S c (as_x wire enc (DDom c fs)) = Ok (DDom c fs).
+Proof. exact roundtrip. Qed.
+Print Assumptions C28_roundtrip.
+
+(* The same with the decidable well-typedness test the correspondence
+   evaluates on every case ([fitsb] agrees with the harness's own judgement
+   of which cases the oracle must hold on). *)
+Theorem C28_roundtrip_checked : forall (wire : Type) (enc : value -> wire) (dec : wire -> option value)
+    (common : value -> Prop),
+  (forall v, common v -> dec (enc v) = Some v) ->
+  forall S c fs,
+    schema_ok S -> fitsb S (TDom c) (DDom c fs) = true -> common (dictify (DDom c fs)) ->
+    from_x wire dec S c (as_x wire enc (DDom c fs)) = Ok (DDom c fs).
+Proof. intros. eapply roundtrip; eauto. now apply fitsb_fits. Qed.
+Print Assumptions C28_roundtrip_checked.
+
+(* The full statement fails (D31b): class 0 = Leaf(a, b), class 1 =
+   Opt(leaf : Leaf | None, v); an Opt holding a Leaf comes back holding a
+   dict, even through a perfect codec (the identity). *)
+Theorem C28_roundtrip_refuted :
+  exists S c d, schema_ok S /\ has_dom d = true /\
+    from_x value Some S c (as_x value (fun v => v) d) <> Ok d.
+Proof.
+  exists [[([97], TOther); ([98], TOther)]; [([108], TOther); ([118], TOther)]]%N, 1,
+         (DDom 1 [([108], DDom 0 [([97], DInt 1); ([98], DNull)]); ([118], DNull)]%N).
+  split; [|split].
+  - intros c. destruct c as [|[|[|c]]]; simpl; repeat constructor; simpl; intuition discriminate.
+  - reflexivity.
+  - vm_compute. discriminate.
+Qed.
+Print Assumptions C28_roundtrip_refuted.
+
+(* Non-vacuity: Leaf(a, b), Mid(leaf : Leaf, v); Mid(Leaf(1, "é"), [2.5, None, {"k": -7}])
+   is well-typed and goes through the identity codec unchanged. *)
+Example C28_example :
+  let S := [[([97], TOther); ([98], TOther)]; [([108], TDom 0); ([118], TOther)]]%N in
+  let d := DDom 1 [([108], DDom 0 [([97], DInt 1); ([98], DStr [233])]);
+                   ([118], DList [DFloat 4612811918334230528; DNull; DDict [([107], DInt (-7))]])]%N in
+  schema_ok S /\ fits S (TDom 1) d /\
+  from_x value Some S 1 (as_x value (fun v => v) d) = Ok d.
+Proof.
+  cbv zeta. split; [|split].
+  - intros c. destruct c as [|[|[|c]]]; simpl; repeat constructor; simpl; intuition discriminate.
+  - apply fits_dom. simpl. repeat constructor; simpl; auto.
+  - vm_compute. reflexivity.
+Qed.
